@@ -14,7 +14,7 @@ MANIFEST = dict(
     text=("Mixed. PROVED for all centres, radii and normals (symbolic reals), per resolution n (3..12 quick, 3..24 thorough): get_circle_point_list returns n points, each in the plane through the centre orthogonal to the normal, each at distance r "
           "(relative 1e-9: the code's cos / sin values are doubles), consecutive points one chord 2 r sin(pi/n) apart and all turning the same way about the normal (equal angular steps), never raising for any non-zero normal - including normals along or "
           "opposite to a coordinate axis - and leaving its arguments unchanged; n <= 2 raises. Parallelogram hands exactly the four corners b, b+v1, b+v2, b+v1+v2 to the polygon constructor and Parallelepiped exactly the six faces whose corners are the eight "
-          "points b + {0,1}v1 + {0,1}v2 + {0,1}v3 (each vertex in three faces), arguments unchanged. The offsets of the circle points from the centre depend on (normal, radius, n) only (n = 3..5; thorough ..12); against that contract Cylinder hands the polyhedron constructor exactly the circle about c + h, the circle about c and the n parallelograms top_i, top_i+1, bottom_i+1, bottom_i with top_k = bottom_k + h, and Cone the base circle and the n triangles apex, base_i, base_i+1 (n = 3, 4, 6, 10; thorough 3..12, 24), sharing no Point with the arguments. BOUNDED (labelled): vertex / edge / face counts, closedness, vertices on the specified circle / cylinder / cone / sphere, area and volume closed forms "
+          "points b + {0,1}v1 + {0,1}v2 + {0,1}v3 (each vertex in three faces), arguments unchanged. The offsets of the circle points from the centre depend on (normal, radius, n) only (for every n used below); against that contract Cylinder hands the polyhedron constructor exactly the circle about c + h, the circle about c and the n parallelograms top_i, top_i+1, bottom_i+1, bottom_i with top_k = bottom_k + h, and Cone the base circle and the n triangles apex, base_i, base_i+1 (n = 3, 4, 6, 10; thorough 3..12, 24), sharing no Point with the arguments. BOUNDED (labelled): vertex / edge / face counts, closedness, vertices on the specified circle / cylinder / cone / sphere, area and volume closed forms "
           "(relative 1e-9) of Circle, Cylinder, Cone, Sphere and Parallelepiped over centres, radii, the 26 lattice directions plus near-axis directions, n = 3..24, n1 = 3..12, n2 = 2..5 - these go through both constructors."),
     note="A3: acos only through its bracketed comparisons with SMALL_ANGLE and pi - SMALL_ANGLE; cos / sin of the concrete step angles are the doubles the code computes. A1, A5. Shape bound: n as stated.",
     technique="contract-based deductive verification of the point generators (z3, ghost scalars) + labelled bounded stand-in with closed-form references for the assembled bodies",
@@ -251,7 +251,7 @@ def groups(tier):
         gs.append(Group("get_circle_point_list[n=%d, all centres / radii / normals]" % n, circle_harness(n), ["Geometry3D.geometry.polygon:get_circle_point_list"], stubs=stubs,
                         world="COORD", timeout_s=1200, prove_ms=40000))
     ex = [(C.T_PAR, C.x_parallel), (C.T_VEQ, C.x_vector_eq), (C.T_LENGTH, C.x_length)]
-    for n in ((3, 4, 5) if tier == "quick" else range(3, 13)):
+    for n in ((3, 4, 5, 6, 10) if tier == "quick" else list(range(3, 13)) + [24]):  # (every n for which the Cylinder / Cone groups below use this clause)
         gs.append(Group("get_circle_point_list[n=%d, offsets independent of the centre]" % n, circle_translation_harness(n), ["Geometry3D.geometry.polygon:get_circle_point_list"], stubs=stubs,
                         world="COORD", timeout_s=600, prove_ms=30000))
     cstubs = [("Geometry3D.geometry.polygon:get_circle_point_list", x_circle_points)]
